@@ -2,7 +2,7 @@
 Driver for C11: one workspace + target list per line, one result per line.
 Strings are lower-case hex (`-` = empty string).
 
-  run dirs=<L> bf=<files> src=<L> t=<L> [ar=1]     (ar: Config.AlwaysRebuild on the implementation side; the model has no cache)
+  run dirs=<L> bf=<files> src=<L> t=<L> [wd=<s>] [ar=1]     (wd: work dir of the builder under <root>/src;     (ar: Config.AlwaysRebuild on the implementation side; the model has no cache)
 
   <L>      comma separated strings, `.` = empty list
   <files>  `;` separated `<dir>:<decls>`, `.` = no build file at all
@@ -80,7 +80,8 @@ def step (_ : Unit) (line : String) : Unit × String :=
       match (kv rest "dirs").bind (parseList ","), (kv rest "bf").bind parseFiles,
             (kv rest "src").bind (parseList ","), (kv rest "t").bind (parseList ",") with
       | some dirs, some files, some srcs, some ts =>
-        match run genCfg ⟨dirs, files, srcs⟩ fuelDefault ts with
+        let wd := ((kv rest "wd").bind parseS).getD []
+        match run genCfg ⟨dirs, files, srcs⟩ fuelDefault (resolveTargets wd ts) with
         | .outOfFuel => "outOfFuel"
         | .failed errs => "failed " ++ classes errs
         | .built log _ => "built " ++ showL log
